@@ -1,24 +1,32 @@
 use crate::core::Property;
 
+pub mod c02;
 pub mod c03;
 pub mod c06;
 pub mod c10;
 pub mod c15;
 pub mod c17;
 pub mod c04;
+pub mod c05;
 pub mod c18;
 pub mod c19;
+pub mod c20;
+
+pub mod heads;
 
 pub fn all() -> Vec<Box<dyn Property>> {
     vec![
+        Box::new(c02::P),
         Box::new(c03::P),
         Box::new(c04::P),
+        Box::new(c05::P),
         Box::new(c06::P),
         Box::new(c10::P),
         Box::new(c15::P),
         Box::new(c17::P),
         Box::new(c18::P),
         Box::new(c19::P),
+        Box::new(c20::P),
     ]
 }
 
